@@ -223,6 +223,7 @@ type world struct {
 	nodeGets           int
 	refreshOnSecondGet string
 	refreshed          bool
+	removedByRefresh   interface{} // cached node removed by a mid-item cache update: its delete handler is still due
 	unexpected         []string
 }
 
@@ -439,6 +440,7 @@ func (w *world) refreshNodeCache(name string) {
 	} else if old, exists, _ := w.nodeInf.inf.indexer.GetByKey(name); exists {
 		_ = w.nodeInf.inf.indexer.Delete(old)
 		delete(w.sentNode, name)
+		w.removedByRefresh = old
 	}
 }
 
